@@ -1,7 +1,8 @@
 """C04 implementation driver: histories of connection operations on the instances of one module, observed
 after every operation, then (optionally) elaborated and exported.
 
-job = dict(kinds=[0|n, ...]      per instance: 0 = Instance, n >= 1 = InstanceArray of n
+job = dict(kinds=[0|n|-1|-2, ...] per instance: 0 = Instance, n >= 1 = InstanceArray of n, -1 = template Instance that is
+                                 never added to the module, -2 = the array `2 * template` made by ["toarray", t, k]
            ports=[name, ...]     the port-name alphabet (index = port id in the model)
            pool={id: [kind, recipe]}   connectables with an identity (built once, lazily, re-used)
            dicts={id: {member: recipe}} raw Python dicts (connect() wraps them into a new AnonymousBundle)
@@ -55,6 +56,12 @@ class World:
         self.leaf, self.top = leaf, top
         self.insts = []
         for k, n in enumerate(job["kinds"]):
+            if n == -2:                 # the array `2 * template` makes later ("toarray")
+                self.insts.append(None)
+                continue
+            if n == -1:                 # a template Instance: connected like any other, never added to the module
+                self.insts.append(h.Instance(of=leaf))
+                continue
             inst = h.InstanceArray(of=leaf, n=n, name=f"i{k}") if n > 0 else h.Instance(of=leaf, name=f"i{k}")
             top.add(inst)
             self.insts.append(inst)
@@ -112,6 +119,8 @@ class World:
             return {k: self.recipe(v) for k, v in self.job["dicts"][str(a[2])].items()}
         if a[0] == "bad":
             return BAD[a[1]]
+        if a[0] == "made":
+            return [o for o in self.keep if self.labels[id(o)] == ["obj", "anon", a[1]]][0]
         raise ValueError(a)
 
     # ------------------------------------------------------------------ operations
@@ -119,6 +128,11 @@ class World:
         t = op[0]
         if t == "getref":
             self.ref(op[1], op[2])
+            return None
+        if t == "toarray":
+            arr = 2 * self.insts[op[1]]
+            self.top.add(arr, name=f"i{op[2]}")
+            self.insts[op[2]] = arr
             return None
         inst = self.insts[op[1]]
         if t == "call":
@@ -173,6 +187,8 @@ class World:
     def observe(self):
         conns = []
         for i, inst in enumerate(self.insts):
+            if inst is None:
+                continue
             for pname, o in inst.conns.items():
                 conns.append([i, self.ports.index(pname) if pname in self.ports else -1, self.lab(o)])
         known = [self.objs[k] for k in sorted(self.objs)] + \
@@ -195,6 +211,8 @@ class World:
             back.append([self.lab(o), sorted(members)])
         handed = []
         for i, inst in enumerate(self.insts):
+            if inst is None:
+                continue
             for pname in inst._refs.portrefs.keys():
                 handed.append([i, self.ports.index(pname) if pname in self.ports else -1])
         return dict(conns=conns, back=back, handed=handed, unique=self.unique)
